@@ -57,7 +57,7 @@ static int run_ms(const lay_t *L,void *d,const char *ctx,int api,const unsigned 
          else if (ms_lastdur(L,d,&dur)!=OPUS_OK||dur!=D) FAIL("valid_framing_last_duration",CALLDESC " announced=%ld last_packet_duration=%d",CALLARGS,D,(int)dur); } }
    if (ret>0){ opus_int32 dur=-1; uint64_t h; ms_lastdur(L,d,&dur); if(dur!=ret) MC_INC(c_adv_lastdur);
       h=mc_mix(mc_mix((uint64_t)(L-LY),api),mc_mix(fec,ret)); h=mc_mix(h,(p&&len>0)?p[0]:0x1FF); h=mc_mix(h,len>3?4:len);
-      if (mc_set_add(obs,h)) mc_sample("layout=%s Fs=%d %s | %s(len=%d,frame_size=%d,fec=%d) pkt=%s -> n=%d (last_packet_duration=%d)",L->name,L->Fs,ctx,an,len,fs,fec,(p&&len>0)?mc_hex(p,len>48?48:len):"-",ret,(int)dur); }
+      if (mc_set_add(obs,h) && (h&255)==0) mc_sample("layout=%s Fs=%d %s | %s(len=%d,frame_size=%d,fec=%d) pkt=%s -> n=%d (last_packet_duration=%d)",L->name,L->Fs,ctx,an,len,fs,fec,(p&&len>0)?mc_hex(p,len>48?48:len):"-",ret,(int)dur); }
    return ret;
 }
 
